@@ -29,7 +29,7 @@ claim("C08", "M", "SMT bounded model checking of MIR (z3 + cvc5 portfolio)",
       "Kernel level: every per-HTLC CLTV boundary inequality (forward admission, claim deadline <=> automatic fail-back, final-hop acceptance, the claim deadline announced with PaymentClaimable = earliest part expiry - 39, the monitor's go-on-chain decision for an unresolved HTLC: outbound expired >= 3 blocks ago, inbound with known preimage expiring within 36 blocks) for all heights < 2^31 and all expiries, and the safety margins they compose to; loops over HTLCs are decided one iteration at a time from an arbitrary loop-head state.",
       "trusted: rustc MIR dump, engine_m, z3/cvc5; the end-to-end race against the chain is outside the claim")
 claim("C16", "M", "SMT bounded model checking of MIR (z3 + cvc5 portfolio)",
-      "Kernel level: routing fee arithmetic (compute_fees, saturating variant), cross-module agreement with the forwarding node's fee check, max_htlc_from_capacity; all u64/u32/u8 inputs. Path level: PaymentPath::update_value_and_recompute_fees on 1-3 (thorough 4) symbolic hops - every forwarding node is paid at least its policy fee for the amount it forwards, every hop carries at least its htlc_minimum (amounts <= 2^40 msat, proportional fees <= 2^19 ppm). The path search, liquidity accounting and scoring are outside the claim.",
+      "Kernel level: routing fee arithmetic (compute_fees, saturating variant), cross-module agreement with the forwarding node's fee check, max_htlc_from_capacity; all u64/u32/u8 inputs. Path level: PaymentPath::update_value_and_recompute_fees on 1-4 (thorough 5) symbolic hops - every forwarding node is paid at least its policy fee for the amount it forwards, every hop carries at least its htlc_minimum (amounts <= 2^40 msat, proportional fees <= 2^19 ppm). Inside get_route (regions of its MIR executed from an arbitrary state, all live locals havocked, graph / scorer / map look-ups stubbed): one application of the add_entry! macro (3 of its 8 expansions in the quick tier, all in the thorough tier) takes a candidate channel only for an amount that fits its usable maximum jointly with the liquidity earlier paths use, reaches its htlc_minimum, keeps total fee / CLTV / length within the request's limits, never takes a previously failed channel, and records the policy fee; one iteration of the loop that charges a selected path to used_liquidities. Counterexamples are replayed through the public find_route on small graphs with a native validator of the property's statement. The order of the search, that the regions compose to a whole valid route, scoring and completeness are outside the claim.",
       "trusted: rustc MIR dump, engine_m, z3")
 claim("C07", "M", "SMT bounded model checking of MIR (z3 + cvc5 portfolio)",
       "Kernel level: which HTLC outputs of a confirmed counterparty commitment and of our own confirmed commitment get a claim, for which outpoint, of which kind and with which urgency height (one iteration of the HTLC loops of get_counterparty_output_claim_info / get_broadcasted_holder_htlc_descriptors from an arbitrary loop-head state plus the package closure, replayed on live nodes); claim-package fee kernels (first-attempt fee, RBF bumping incl. BIP-125 rules 3/4 and monotone feerates, anchor-claim feerate strategy, package output value, package locktime) for all amounts/estimates over a stated finite set of transaction weights and <=2 (quick) / <=3 (thorough) inputs. Which outputs are claimed, scripts and the sweeper are outside the claim.",
